@@ -305,6 +305,42 @@ def run(ctx):
     ctx.extra['correspondence'] = {'runs': len(keep), 'mismatches': mism}
     if mism:
         ctx.broken.append('correspondence:gen_coords rows / box vs model/Coords.v + Gen_boxsel + Gen_box')
+    retry_cases(ctx)
+
+
+def retry_cases(ctx):
+    """placement outcomes with rewinds: partly supplied chains (supplied and built residues interleaved) in which growth
+    steps are refused, so that the walk rewinds over supplied residues; every row must be there, in order, finite"""
+    from harness.props import c04
+    for _ in range(ctx.n(3, 24)):
+        case = c04.plan_rewind(ctx.rng)
+        try:
+            res, rows_in, plan = c04.run_case(case, timeout=60)
+        except ValueError:
+            continue
+        ctx.case(('rewind', json.dumps(case, sort_keys=True, default=str)), nontrivial=bool(res.get('rewinds')),
+                 sample={'residues': case['moltypes'][0]['nres'], 'refused_steps': case['step_fail'], 'rewinds': res.get('rewinds'), 'ok': res['ok']})
+        ctx.feature('runs_with_rewind' if res.get('rewinds') else 'runs_without_rewind')
+        if not res['ok']:
+            if res['exc_type'] != 'RunTimeout':
+                ctx.violation('spec', f"gen_coords fails on an accepted input (partly supplied chain, refused growth steps {case['step_fail']}): "
+                              f"{res['exc_type']}: {str(res.get('exception'))[:160]}", {'rewind_case': case})
+            continue
+        want = systems.expanded_atoms(case['moltypes'], case['molecules'])
+        rows = res.get('rows') or []
+        bad = None
+        if len(rows) != len(want):
+            bad = f"{len(rows)} atoms written, the expanded [ molecules ] section has {len(want)}"
+        else:
+            for i, (r, w) in enumerate(zip(rows, want)):
+                if (r['resid'], r['resname'], r['name']) != w:
+                    bad = f"row {i + 1} is {(r['resid'], r['resname'], r['name'])}, topology order expects {w}"
+                    break
+                if len(r['xyz']) != 3 or not all(math.isfinite(x) for x in r['xyz']):
+                    bad = f"row {i + 1} ({r['raw'].strip()}) has no finite coordinate after {res.get('rewinds')} rewind(s)"
+                    break
+        if bad:
+            ctx.violation('spec', f"C03 fails on the implementation: {bad}", {'rewind_case': case, 'failure': bad})
 
 
 def search(ctx):
@@ -323,6 +359,12 @@ def search(ctx):
 
 
 def replay(ctx, data):
+    if 'rewind_case' in data:
+        from harness.props import c04
+        res, rows_in, plan = c04.run_case(data['rewind_case'], timeout=60)
+        bad = [r['raw'].strip() for r in (res.get('rows') or []) if not all(math.isfinite(x) for x in r['xyz'])]
+        print('replay: ok', res['ok'], 'rewinds', res.get('rewinds'), 'rows without finite coordinates', bad[:5])
+        return 1 if bad or not res['ok'] else 0
     print(json.dumps(data, indent=1, default=str)[:2500])
     case = data.get('case')
     if not case:
